@@ -161,7 +161,7 @@ def check(ctx):
             ctx.check(ok, "writer/item-forms", f"{q} | {kind}", f"collapseNestedLists({items!r}) gives {got!r}; required {want!r}")
 
     # ---- reader: parseNestedParens transition table ----------------------------------------------------------------
-    with sect(ctx, 'reader: parseNestedParens transition table'):
+    with sect(ctx, 'reader: parseNestedParens transition table'), structural(ctx, "reader/paren-transitions", "roundtrip/writer-output-parses-back (bounded: the whole reader evaluated on writer outputs)"):
         fp = ctx.func(IMAP, "parseNestedParens")
         q = "twisted.mail.imap4.parseNestedParens"
         allw = [x for x in ast.walk(fp) if isinstance(x, ast.While)]
@@ -182,6 +182,12 @@ def check(ctx):
         length = [k for k, v in init.items() if isinstance(v, ast.Call) and call_name(v) == "len"]
         ctx.need(len(idx) == 1 and len(flag) == 1 and len(stack) == 1, f"index / in-quote flag / content stack of {q}")
         idx, flag, stack = idx[0], flag[0], stack[0]
+        mod_fn_names = {h.name for h in mod.tree.body if isinstance(h, ast.FunctionDef)}
+        for c in ast.walk(loop):
+            if isinstance(c, ast.Call) and isinstance(c.func, ast.Name) and c.func.id in mod_fn_names and any(isinstance(a_, ast.Name) and a_.id == sname for a_ in c.args):
+                raise Abstain(f"the scanning loop hands the whole input to {c.func.id}(): it is not a one-unit-per-step machine")
+            if isinstance(c, (ast.For, ast.While)) and c is not loop:
+                raise Abstain("a loop nested in the scanning loop consumes several units per step")
         ex_p, why_p = domain_argument([fp], inputs={sname, hl}, state={idx, flag, stack} | set(length))
         if not ex_p:
             ctx.note(f"{q}: domain argument not established ({why_p}); the step table is bounded evidence")
@@ -415,5 +421,8 @@ SILENT = [
                   "def _lits(run):\n    return [b\"\".join(piece[0] for piece in run)]\n\n\ndef collapseStrings(results):\n")]),
     Silent("collapse-guard-clauses-and-inplace-tuples", IMAP, '        if i is None:\n            pieces.extend([b" ", b"NIL"])\n        elif isinstance(i, int):\n            pieces.extend([b" ", networkString(str(i))])\n',
            '        if i is None:\n            pieces += (b" ", b"NIL")\n            continue\n        if isinstance(i, int):\n            pieces += (b" ", networkString(str(i)))\n            continue\n        if False:\n            pass\n'),
+    Silent("quoted-string-copied-by-a-helper", IMAP, '                if c == b\'"\':\n                    contentStack[-1].append(c)\n                    inQuote = not inQuote\n                    i += 1\n                elif handleLiteral and c == b"{":\n',
+           '                if c == b\'"\':\n                    contentStack[-1].append(c)\n                    i = _restOfQuoted(s, i + 1, contentStack[-1])\n                elif handleLiteral and c == b"{":\n',
+           more=[(IMAP, "def parseNestedParens(s, handleLiteral=1):\n", "def _restOfQuoted(s, start, sink):\n    pos = start\n    while pos < len(s):\n        c = s[pos : pos + 1]\n        if c == b\"\\\\\":\n            sink.append(s[pos : pos + 2])\n            pos += 2\n            continue\n        sink.append(c)\n        pos += 1\n        if c == b'\"':\n            break\n    return pos\n\n\ndef parseNestedParens(s, handleLiteral=1):\n")]),
     Silent("F42-repaired-tokenizer", IMAP, _SQ_OLD, _SQ_FIXED),
 ]
